@@ -20,7 +20,7 @@ const RULE: &str = "a case = a generated tree of layers (prefix, filter with 0-3
 
 static META: Metadata<'static> = Metadata::new("c13::target", Level::WARN, Some("c13::module"));
 
-const ATOMS: [&str; 8] = ["a", "b", "ab", ".", "A", "é", "x", ""];
+const ATOMS: [&str; 10] = ["a", "b", "ab", ".", "A", "é", "x", "", "É", "Δ"];
 
 fn dec_name(src: &mut Source) -> String {
     src.small_string(&ATOMS, 4)
